@@ -364,6 +364,10 @@ def check_history(case, rec):
             otags = dict(tags, op=k)
             try:
                 if k.startswith("gen"):
+                    if cfg.get("norm") == "LogNormal" and float(np.min(cond_val)) <= 0.0:
+                        # the history assigned a LogNormal normalizer and, later, data outside its domain: nothing to compare
+                        rec.exclude("data_outside_normalizer_range")
+                        break
                     kw = {}
                     if k == "gen_seed":
                         seed = op["seed"]
